@@ -346,6 +346,8 @@ func (h *Runner) genRTX(cur uint32, toWAL bool) Step {
 		case x < 16:
 			st.Outcome = int(lfs.RollbackAfterWrite)
 		}
+	} else if r.Chance(12) { // the transaction that would create the database is rolled back
+		st.Outcome = int(lfs.RollbackBeforeWrite) + r.Intn(2)
 	}
 	if cur > 0 && r.Chance(18) {
 		st.Spill = 1 + r.Intn(3)
@@ -521,7 +523,11 @@ func (h *Runner) Exec(st Step) Obs {
 						h.WALMode = true
 					}
 				}
-				// a finalised valid journal is one transaction for LiteFS, commit or rollback
+				// a finalised valid journal is one transaction for LiteFS, commit or rollback - except the rollback of the
+				// transaction that would have created the database: there is no database yet and nothing is published
+				if lfs.RollbackOutcome(st.Outcome) != lfs.Commit && len(h.Ref.Pages) == 0 {
+					return
+				}
 				h.RefPos++
 				ob.Captured = true
 			}
